@@ -167,11 +167,19 @@ func sweepOne(rep *explore.Report, c *Config, cnt *[4]int64) {
 }
 
 func c13Grid(tier string, emit func(*Config)) {
-	vals := []int64{0, 1, 2, 3, 5}
 	maxN := 6
 	if tier == "thorough" {
 		maxN = 9
 	}
+	c13Family(tier, []int64{0, 1, 2, 3, 5}, 40, maxN, emit)
+	// the same grid at other magnitudes, 2 and 3 seats: table stakes in the hundreds, amounts around
+	// 2^31 / 2^32 (narrower integer types) and odd amounts above 2^53 (not representable as float64)
+	c13Family(tier, []int64{0, 25, 50, 100, 250}, 10007, 3, emit)
+	c13Family(tier, []int64{0, 1<<31 - 1, 1<<31 + 1, 1<<32 + 1, 1<<33 + 3}, 1<<40+1, 3, emit)
+	c13Family(tier, []int64{0, 1<<52 + 1, 1<<53 + 1, 1<<53 + 3, 1<<54 + 5}, 1<<60+1, 3, emit)
+}
+
+func c13Family(tier string, vals []int64, deep int64, maxN int, emit func(*Config)) {
 	for n := 2; n <= maxN; n++ {
 		for _, ante := range vals {
 			for _, sb := range vals {
@@ -202,19 +210,19 @@ func c13Grid(tier string, emit func(*Config)) {
 											blind += db
 										}
 									}
-									full := uniq([]int64{1, ante, ante + 1, ante + blind - 1, ante + blind, ante + blind + 1, 40})
+									full := uniq([]int64{1, ante, ante + 1, ante + blind - 1, ante + blind, ante + blind + 1, deep})
 									switch {
 									case n <= 3 || (tier == "thorough" && n <= 4):
 										th[i] = full
 									case n == 4:
-										th[i] = uniq([]int64{1, ante + 1, ante + blind, 40})
+										th[i] = uniq([]int64{1, ante + 1, ante + blind, deep})
 									case n == 5:
-										th[i] = uniq([]int64{ante, ante + blind, 40})
+										th[i] = uniq([]int64{ante, ante + blind, deep})
 									default:
 										if blind > 0 {
 											th[i] = uniq([]int64{ante + blind - 1, ante + blind + 1})
 										} else {
-											th[i] = uniq([]int64{ante, 40})
+											th[i] = uniq([]int64{ante, deep})
 										}
 										if n > 6 && blind == 0 {
 											th[i] = []int64{ante + 1}
@@ -246,7 +254,7 @@ func c13Grid(tier string, emit func(*Config)) {
 
 // RunC13 sweeps the full forced-bet configuration grid.
 func RunC13(rep *explore.Report, tier string) {
-	rep.Set("rule", "full grid of seat counts x button x (ante, sb, bb, dealer blind) in {0,1,2,3,5}^4 with sb<=bb x dead-small-blind flag x per-seat bankrolls on the thresholds below/at/above each forced amount; each configuration is driven Start, ReadyForAll, [PayAnte], [PayBlinds] and compared with refForced; distinct_nontrivial = configurations whose forced bets were compared")
+	rep.Set("rule", "full grid of seat counts x button x (ante, sb, bb, dealer blind) in {0,1,2,3,5}^4 (2-3 seats also in {0,25,50,100,250}^4, {0,2^31-1,2^31+1,2^32+1,2^33+3}^4 and {0,2^52+1,2^53+1,2^53+3,2^54+5}^4) with sb<=bb x dead-small-blind flag x per-seat bankrolls on the thresholds below/at/above each forced amount; each configuration is driven Start, ReadyForAll, [PayAnte], [PayBlinds] and compared with refForced; distinct_nontrivial = configurations whose forced bets were compared")
 	// scenes first, alone in the process (see scene.go)
 	before := rep.ViolationCount()
 	{
